@@ -189,18 +189,25 @@ Proof.
 Qed.
 
 (** * H1: accepted bytes are a prefix of the fault-free output, for every history *)
-Definition guard (v : video_track) : bool := (U16MAX <? vt_width v) || (U16MAX <? vt_height v).
+Definition guard (w : writer) (v : video_track) : bool :=
+  (U16MAX <? vt_width v) || (U16MAX <? vt_height v) || param_sets_too_long (w_vconfig w).
 
 Lemma finalize_guarded w v md fs :
-  w_finalized w = false -> guard v = true ->
+  w_finalized w = false -> guard w v = true ->
   finalize w v md fs = (w, FinErr (FinIo IoInvalidInput)).
-Proof. unfold guard, finalize. intros -> ->. reflexivity. Qed.
+Proof.
+  unfold guard, finalize. intros -> G.
+  destruct ((U16MAX <? vt_width v) || (U16MAX <? vt_height v)); [reflexivity|].
+  cbn [orb] in G. rewrite G. reflexivity.
+Qed.
 
 Lemma finalize_unguarded w v md fs :
-  w_finalized w = false -> guard v = false ->
+  w_finalized w = false -> guard w v = false ->
   exists bw s r, finalize w v md fs = (with_sink w true bw s, r).
 Proof.
-  unfold guard, finalize. intros -> ->.
+  unfold guard, finalize. intros -> G.
+  destruct ((U16MAX <? vt_width v) || (U16MAX <? vt_height v)); [discriminate|].
+  cbn [orb] in G. rewrite G.
   destruct (if fs then finalize_fast_start w v md (effective_config w)
             else finalize_standard w v md (effective_config w)) as [bufs term].
   destruct (run_plan bufs (w_bytes_written w) (w_sink w)) as [[bw s] e].
@@ -220,14 +227,15 @@ Lemma finalize_phaseA w v md fs :
 Proof.
   intros F.
   assert (F' : w_finalized (wset w (clean (w_sink w))) = false) by exact F.
-  destruct (guard v) eqn:G.
+  assert (G' : guard (wset w (clean (w_sink w))) v = guard w v) by reflexivity.
+  destruct (guard w v) eqn:G.
   - left. split; apply finalize_guarded; assumption.
   - right.
     pose proof (finalize_accepted_is_prefix_of_fault_free w v md fs
                   (sk_rev_chunks (w_sink w)) (sk_script (w_sink w))) as P.
     cbv zeta in P. rewrite wself in P.
     destruct (finalize_unguarded w v md fs F G) as (bw1 & s1 & r1 & E1).
-    destruct (finalize_unguarded _ v md fs F' G) as (bw2 & s2 & r2 & E2).
+    destruct (finalize_unguarded _ v md fs F' G') as (bw2 & s2 & r2 & E2).
     split; [rewrite E1; reflexivity|]. split; [rewrite E2; reflexivity|].
     exact P.
 Qed.
@@ -314,6 +322,8 @@ Proof.
   destruct (w_finalized w).
   { exists s2. cbn [fst snd with_sink w_sink]. auto. }
   destruct (_ || _).
+  { exists s2. cbn [fst snd with_sink w_sink]. auto. }
+  destruct (param_sets_too_long (w_vconfig w)).
   { exists s2. cbn [fst snd with_sink w_sink]. auto. }
   set (bufs := fst (plan_of w v md fs)). set (term := snd (plan_of w v md fs)).
   destruct (run_plan_benign bufs (w_bytes_written w) s1 B1) as [s1' [H1 [Hb1 Hben1]]].
